@@ -202,6 +202,8 @@ def c04(ev, tier, seed):
     sp_model(ev, "C04", seed, "replies", 24, ["replies"], "tiny" if tier == "quick" else "quick", [2], ops=("co", "c", "ss"))
     # every ordered pair of adjacent reply-producing records (state left behind by one must not leak into the next)
     sp_model(ev, "C04", seed, "replies2", 24, ["replies2"], "tiny" if tier == "quick" else "quick", [2], ops=("co", "c") if tier == "quick" else ("co", "c", "ss"))
+    # more reply bytes pending than one GetValuesResult is long, drained by partial consume_output(50|60) calls
+    sp_model(ev, "C04", seed, "replies3", 24, ["replies3"], "max" if tier == "quick" else "tiny", [2], ops=("co", "c"))
     chain_traces(ev, "C04", seed, 1500 if tier == "thorough" else 100)
     ev.exhaustive = False
     ev.assumptions = ["an unknown-type record is answered with the record's own request id (what the code and its test do)",
@@ -350,12 +352,12 @@ def conn_cfg(B, menu, sizes="all", spurious=False, stops=False, faults=(), maxcu
                maxcuts, maxpend, invariants or CONN_INVARIANTS))
 
 
-def conn_model(ev, prop, seed, label, B, menu, timeout=2400, **kw):
+def conn_model(ev, prop, seed, label, B, menu, timeout=2400, heap="16g", **kw):
     name = "%s-conn-%s" % (prop, label)
     known = ",".join(cl.load_known(prop).keys())
     stats, h = cl.run_tlc_piped(name, "MC_Conn", conn_cfg(B, menu, **kw),
                                 ["conn-replay", "--prop", prop, "--seed", str(seed), "--threads", str(cl.NCPU), "--known", known],
-                                timeout=timeout, workers=max(4, cl.NCPU - 6), heap="16g")
+                                timeout=timeout, workers=max(4, cl.NCPU - 6), heap=heap)
     ev.add_tlc("MC_Conn B=%d menu=%s %s" % (B, ",".join(menu), " ".join("%s=%s" % kv for kv in sorted(kw.items()))), stats)
     ev.add_harness("behaviours replayed on Token::run (%s)" % label, h)
 
@@ -437,7 +439,8 @@ def c09(ev, tier, seed):
     conn_model(ev, "C09", seed, "reads-eof", 24, ["reads"], faults=("eof",), maxcuts=0)
     conn_traces(ev, "C09", seed + 1, 400 if tier == "thorough" else 60, sizes=(24, 64, 8192) if tier == "thorough" else (32, 8192))
     if tier == "thorough":
-        conn_model(ev, "C09", seed, "reads-b32", 32, ["reads", "basic"], maxcuts=3)
+        # (behaviour histories live in the state: three partial transfers over nine programs need more than 16 GB)
+        conn_model(ev, "C09", seed, "reads-b32", 32, ["reads"], maxcuts=3, heap="28g", timeout=3600)
         conn_model(ev, "C09", seed, "reads-pend", 24, ["reads"], spurious=True, maxcuts=1, maxpend=2)
     ev.exhaustive = False
     ev.assumptions = CONN_ASSUME
@@ -518,6 +521,13 @@ def c13(ev, tier, seed):
         stats, h = cl.run_tlc_piped("C13-runner-%d" % limit, "MC_Runner", cfg, ["runner-replay", "--prop", "C13", "--which", "runner"], workers=4)
         ev.add_tlc("MC_Runner MaxConns=%d NF=%d" % (limit, nf), stats)
         ev.add_harness("histories replayed on Runner/Token (limit %d)" % limit, h)
+    # a runner and its clone with shutdown of either: the limit is shared and survives a shutdown (Server.tla, see 13.9)
+    for limit in (1, 2):
+        cfg = ("SPECIFICATION Spec\nCONSTANTS\n  MaxConns = %d\n  NF = 4\nVIEW View\nACTION_CONSTRAINT Emit\n"
+               "INVARIANTS SharedLimit QueueSane NoStrandedSlot\nCHECK_DEADLOCK FALSE\n" % limit)
+        stats, h = cl.run_tlc_piped("C13-server-%d" % limit, "MC_Server", cfg, ["runner-replay", "--prop", "C13", "--which", "server"], workers=4)
+        ev.add_tlc("MC_Server MaxConns=%d NF=4 (runner + clone + shutdown)" % limit, stats)
+        ev.add_harness("runner + clone histories with shutdown replayed (limit %d)" % limit, h)
     # the token is held for the whole of Token::run: probed at every suspension of replayed connections
     conn_model(ev, "C13", seed, "permit", 24, ["basic"], spurious=True, maxcuts=1, maxpend=1)
     hs = cl.run_harness("C13-stress", ["runner-stress", "--seed", str(seed), "--rounds", "300" if tier == "thorough" else "60"])
